@@ -6,7 +6,11 @@
 use arcstr::ArcStr;
 use grafeo_common::types::{EdgeId, EpochId, NodeId, PropertyKey, Value};
 use serde::{Deserialize, Serialize};
+#[cfg(not(kani))]
 use std::collections::BTreeMap;
+// verification builds (`cargo kani`): association-list stand-in (leaks on drop), see grafeo_common::utils::kani_shim
+#[cfg(kani)]
+use grafeo_common::utils::hash::FxHashMap as BTreeMap;
 
 /// A relationship between two nodes, with a type and optional properties.
 ///
